@@ -1334,11 +1334,17 @@ class Irc(IrcCommandDispatcher, log.Firewalled):
                     and 'echo-message' not in self.state.capabilities_ack:
                 # echo-message is not implemented by server; let's emulate it
                 # here, just before sending it to the driver.
-                assert not msg.tagged('receivedAt')
-                if not world.testing:
-                    assert not msg.tagged('emulatedEcho')
-                msg.tag('emulatedEcho', True)
-                self.feedMsg(msg, tag=False)
+                echo = msg
+                if msg.tagged('receivedAt') or msg.tagged('emulatedEcho'):
+                    # This IrcMsg object already went through an Irc: it
+                    # was queued more than once (Relay queues the same
+                    # object on every other network) or it is a received
+                    # message being sent back.  Echo a fresh copy; failing
+                    # here would lose the message, already out of its queue.
+                    echo = ircmsgs.IrcMsg(msg=msg)
+                    echo.tags.clear()
+                echo.tag('emulatedEcho', True)
+                self.feedMsg(echo, tag=False)
             else:
                 # I don't think we should do this.  Why should it matter?  If it's
                 # something important, then the server will send it back to us,
